@@ -389,10 +389,29 @@ def rule_g(repo, chk):
     chk.ob('C15.g', ok, cc, 'create_cached is a classmethod memoised per inference state (inference_state_as_method_param_cache)', str(decs))
 
 
+def rule_h(repo, chk):
+    chk.clause('C15.h', 'the memo decorator stores EVERY result: in _memoize_default each path from the wrapped call to the return passes through '
+                        '`memo[key] = rv` (a result equal to the recursion default is memoised like any other - recursions over base classes such as '
+                        'get_metaclasses/is_typeddict are only bounded by it)')
+    f = repo.find('jedi.inference.cache', '_memoize_default.func.wrapper')
+    c = cfg_of(f)
+    callst = [n for n in c.nodes if n.kind == 'stmt' and isinstance(n.ast, ast.Assign) and isinstance(n.ast.value, ast.Call) and norm(n.ast.value.func) == 'function']
+    chk.floor('C15.h', len(callst), 1, 'the wrapped call in _memoize_default')
+    for n in callst:
+        rv = norm(n.ast.targets[0])
+        stores = {m.id for m in c.nodes if m.kind == 'stmt' and isinstance(m.ast, ast.Assign) and isinstance(m.ast.targets[0], ast.Subscript)
+                  and norm(m.ast.targets[0].value) == 'memo' and norm(m.ast.value) == rv}
+        p_ = c.reach([n], lambda m: m is c.exit or (m.kind == 'stmt' and isinstance(m.ast, ast.Return)), block_node=lambda m: m.id in stores, kinds={'n', 'T', 'F'})
+        chk.ob('C15.h', p_ is None and bool(stores), n.ast, 'the result of the wrapped call is stored in the memo table on every path to the return',
+               'path: %s' % c.describe(p_) if p_ else '')
+    pops = [x for x in calls_in(f) if call_name(x) in ('pop', 'clear') and norm(x.func.value) == 'memo'] + [x for x in own_nodes(f) if isinstance(x, ast.Delete) and 'memo' in norm(x)]
+    chk.ob('C15.h', not pops, f, 'nothing is removed from the memo table', str([short(x) for x in pops]))
+
+
 def describe(chk):
     chk.undecided('the polynomial bound and termination for all programs; indirect (mutual) recursion between different functions, which is what the '
                   'budgets of C15.a-c are for; RecursionError inside parso')
     chk.assume('termination class T (tree/data descent) is asserted by reading, not proved')
 
 
-RULES = [('C15.a', rule_a), ('C15.b', rule_b), ('C15.c', rule_c), ('C15.d', rule_d), ('C15.e', rule_e), ('C15.f', rule_f), ('C15.g', rule_g)]
+RULES = [('C15.a', rule_a), ('C15.b', rule_b), ('C15.c', rule_c), ('C15.d', rule_d), ('C15.e', rule_e), ('C15.f', rule_f), ('C15.g', rule_g), ('C15.h', rule_h)]
